@@ -8,6 +8,7 @@ pub mod c04;
 pub mod c05;
 pub mod c08;
 pub mod c10;
+pub mod c11;
 pub mod c12;
 pub mod c16;
 pub mod c18;
@@ -39,6 +40,7 @@ table! {
     "C05" => c05::run, c05::replay;
     "C08" => c08::run, c08::replay;
     "C10" => c10::run, c10::replay;
+    "C11" => c11::run, c11::replay;
     "C12" => c12::run, c12::replay;
     "C16" => c16::run, c01::replay;
     "C18" => c18::run, c18::replay;
